@@ -600,7 +600,11 @@ func run(p *propCfg, work, tier string, seed int64) int {
 				_ = copyFile(r.log, strings.TrimSuffix(dst, ".json")+".log")
 				violations = append(violations, dst)
 				fmt.Printf("shard %d failed:\n%s\n", r.shard, tail(r.log, 40))
-			case p.Fatal && fileNonEmpty(r.journal):
+			case p.Fatal && fileNonEmpty(r.journal) && r.exit != 1:
+				// the process died (Go fatal error: exit 2; race report: exit 66; signal) while executing
+				// the journalled case. Exit 1 is an ordinary test failure: without a recorded failing
+				// case it is a failure of the harness itself (a panic in a generator, say) and falls
+				// through to the inconclusive branch.
 				dst := filepath.Join(verifDir, "replays", fmt.Sprintf("%s-%s-seed%d-shard%d.json", p.ID, tier, seed, r.shard))
 				_ = copyFile(r.journal, dst)
 				_ = copyFile(r.log, strings.TrimSuffix(dst, ".json")+".log")
@@ -680,6 +684,7 @@ func run(p *propCfg, work, tier string, seed int64) int {
 func runFuzz(p *propCfg, fz fuzzCfg, work string, seed int64, hooks bool, openKeys []string) (violations []string, inconclusive string, execs int64) {
 	fail := filepath.Join(work, "fuzzfail_"+fz.Target+".json")
 	journal := filepath.Join(work, "fuzzjournal_"+fz.Target+".json")
+	harnessPanic := filepath.Join(work, "fuzzharnesspanic_"+fz.Target+".txt")
 	args := []string{"test", "-vet=off", "-run", "^$", "-fuzz", "^" + fz.Target + "$", "-fuzztime", fz.Dur.String(), "-parallel", "16"}
 	if hooks {
 		args = append(args, "-tags", "verif")
@@ -687,7 +692,7 @@ func runFuzz(p *propCfg, fz fuzzCfg, work string, seed int64, hooks bool, openKe
 	args = append(args, "./props")
 	cmd := exec.Command("go", args...)
 	cmd.Dir = harnessDir
-	cmd.Env = append(baseEnv(), "VERIF_FAIL="+fail, "VERIF_JOURNAL="+journal, "VERIF_TIER=thorough",
+	cmd.Env = append(baseEnv(), "VERIF_FAIL="+fail, "VERIF_JOURNAL="+journal, "VERIF_HARNESS_PANIC="+harnessPanic, "VERIF_TIER=thorough",
 		"VERIF_HOOKS="+map[bool]string{true: "1", false: "0"}[hooks], "VERIF_REPO="+repoDir, "VERIF_DIR="+verifDir,
 		// open known findings stay attributed inside the fuzz workers too (their 5 % slices are part of the property bodies)
 		"VERIF_KNOWN_OPEN="+strings.Join(openKeys, ","))
@@ -714,6 +719,11 @@ func runFuzz(p *propCfg, fz fuzzCfg, work string, seed int64, hooks bool, openKe
 		_ = os.RemoveAll(filepath.Join(harnessDir, "props", "testdata"))
 	}
 	if err == nil {
+		if fileNonEmpty(harnessPanic) {
+			b, _ := os.ReadFile(harnessPanic)
+			fmt.Fprintf(os.Stderr, "fuzz target %s: the harness itself panicked (inputs dropped):\n%s\n", fz.Target, lastLines(string(b), 10))
+			return nil, "fuzz-" + fz.Target + "-harness-panic", execs
+		}
 		return nil, "", execs
 	}
 	fmt.Printf("fuzz target %s failed:\n%s\n", fz.Target, lastLines(string(out), 40))
